@@ -577,7 +577,9 @@ impl TypeChecker {
                     seen.insert(v.clone(), ty);
                 }
                 let num_vars = seen.len();
-                for (k, (k_span, t)) in variants.iter() {
+                let mut variants: Vec<_> = variants.iter().collect();
+                variants.sort_by_key(|(_, (span, _))| (span.line_start, span.col_start));
+                for (k, (k_span, t)) in variants.into_iter() {
                     resolved_variants.insert(
                         k.clone(),
                         (*k_span, self.inner_resolve_type(ctx, t, &mut seen)?),
@@ -618,7 +620,9 @@ impl TypeChecker {
                     seen.insert(v.clone(), ty);
                 }
                 let num_vars = seen.len();
-                for (k, (k_span, t)) in fields.iter() {
+                let mut fields: Vec<_> = fields.iter().collect();
+                fields.sort_by_key(|(_, (span, _))| (span.line_start, span.col_start));
+                for (k, (k_span, t)) in fields.into_iter() {
                     resolved_fields.insert(
                         k.clone(),
                         (*k_span, self.inner_resolve_type(ctx, t, &mut seen)?),
